@@ -6,6 +6,7 @@ import (
 	"fmt"
 	"go/token"
 	"go/types"
+	"regexp"
 	"sort"
 	"strings"
 
@@ -104,6 +105,8 @@ func toBytesTriples(fn *ssa.Function) ([]flagTriple, int64, string) {
 }
 
 // fromBytesTriples: F: (b[i] & M) != 0 ; plus the tested length and whether the other-length return is the zero value
+var flagReadRe = regexp.MustCompile(`^\(\(\*(P:[A-Za-z_0-9]+)\[(\d+)\] & (\d+)\) != 0\)$`)
+
 func fromBytesTriples(p *Prog, fn *ssa.Function) ([]flagTriple, int64, string) {
 	var out []flagTriple
 	var tested int64 = -1
@@ -138,27 +141,18 @@ func fromBytesTriples(p *Prog, fn *ssa.Function) ([]flagTriple, int64, string) {
 			if !ok {
 				continue
 			}
-			ne, ok := st.Val.(*ssa.BinOp)
-			if !ok || ne.Op != token.NEQ {
-				return nil, tested, "field " + fieldName(fa.X.Type(), fa.Field) + " is not computed as (byte & mask) != 0"
+			// the stored value, as a term (helpers such as isFlagSet(b, mask) are looked through): ((*par[i] & mask) != 0)
+			t := e.Term(st.Val)
+			mm := flagReadRe.FindStringSubmatch(t)
+			if mm == nil {
+				return nil, tested, "field " + fieldName(fa.X.Type(), fa.Field) + " is not computed as (byte & mask) != 0 but as " + t
 			}
-			and, ok := ne.X.(*ssa.BinOp)
-			if z, isZ := constInt(ne.Y); !ok || and.Op != token.AND || !isZ || z != 0 {
-				return nil, tested, "field " + fieldName(fa.X.Type(), fa.Field) + " is not computed as (byte & mask) != 0"
-			}
-			m, okm := constInt(and.Y)
-			ld, okl := and.X.(*ssa.UnOp)
-			if !okm || !okl {
-				return nil, tested, "non-constant mask in the reader"
-			}
-			ia, ok := ld.X.(*ssa.IndexAddr)
-			if !ok || e.Term(ia.X) != par {
+			if mm[1] != par {
 				return nil, tested, "the reader does not index its parameter"
 			}
-			i, ok := constInt(ia.Index)
-			if !ok {
-				return nil, tested, "non-constant byte index in the reader"
-			}
+			var i, m int64
+			fmt.Sscan(mm[2], &i)
+			fmt.Sscan(mm[3], &m)
 			out = append(out, flagTriple{i, m, fieldName(fa.X.Type(), fa.Field)})
 		}
 	}
